@@ -236,7 +236,7 @@ func strconvQuoteInner(s string) string {
 func init() {
 	register(&Check{
 		ID: "C04", Level: "exploration",
-		NCases: func(t string) int { return tier(t, 300, 5000) },
+		NCases: func(t string) int { return tier(t, 300, 2500) },
 		Run:    runC04,
 		Rule: "case = seeded history over 2-4 buckets whose names are chosen adversarially ('', a, ab, abc, b, 'a|', bc, k: prefixes of each other and of keys, bucket+key concatenations that coincide such as (a,bc)/(ab,c)) with the same keys in every bucket; KV in all three index modes, lists/sets/sorted sets in KeyVal mode; three of four write transactions touch exactly one bucket, the fourth writes the same keys/members to several buckets at once, including two pairs whose bucket+key strings coincide; a third of the RAM-mode histories also call Merge and reopen (no lists / positional sorted-set removals there: C15/C16 findings); " +
 			"oracle 1 (non-interference, self-comparison): the full observation of every other bucket is unchanged by a single-bucket transaction; oracle 2: the full observation equals the reference model (same key, different values per bucket); sparse mode is split into a class with adversarial names and one with unrelated names; non-trivial = history rotated; distinct by history hash",
